@@ -2,6 +2,7 @@ package props
 
 import (
 	"encoding/json"
+	"strconv"
 	"strings"
 	"testing"
 
@@ -13,7 +14,7 @@ import (
 
 var specC03WellFormed = Register(&Spec[WellFormed]{
 	Prop: "C03", Name: "wellformed",
-	Rule: "version strings rendered from the Policy grammar: optional decimal epoch (leading zeros, up to MaxInt64), upstream = digit then [A-Za-z0-9.+~]* with ':' only when an epoch is written and '-' only when a revision is written, optional revision [A-Za-z0-9.+~]+, optional surrounding blanks/tabs/newlines. Oracle: Parse, UnmarshalControl and UnmarshalText succeed and return exactly the renderer's parts - into fresh receivers and into receivers that held another version before (UnmarshalControl, UnmarshalText, json.Unmarshal). Non-trivial: has an epoch and/or a revision and/or ':' or '-' inside upstream; distinct by text.",
+	Rule: "version strings rendered from the Policy grammar: optional decimal epoch (leading zeros, up to MaxInt64), upstream = digit then [A-Za-z0-9.+~]* with ':' only when an epoch is written and '-' only when a revision is written, optional revision [A-Za-z0-9.+~]+, optional surrounding blanks/tabs/newlines. Oracle (an epoch that does not fit the platform's uint - possible on 32-bit builds, which the driver also runs - must be rejected instead): Parse, UnmarshalControl and UnmarshalText succeed and return exactly the renderer's parts - into fresh receivers and into receivers that held another version before (UnmarshalControl, UnmarshalText, json.Unmarshal). Non-trivial: has an epoch and/or a revision and/or ':' or '-' inside upstream; distinct by text.",
 	Check: func(w WellFormed, r *Recorder) error {
 		cl := []string{}
 		if w.HasEpoch {
@@ -30,6 +31,19 @@ var specC03WellFormed = Register(&Spec[WellFormed]{
 		}
 		if w.Text != strings.TrimSpace(w.Text) {
 			cl = append(cl, "surrounding-whitespace")
+		}
+		if w.HasEpoch && w.Epoch > uint64(^uint(0)) {
+			// the epoch does not fit the Epoch member on this platform (a 32-bit build): the
+			// string is one "with an oversized epoch" and has to be rejected, not wrapped around
+			r.Case(w.Text, true, "epoch-oversized-for-this-platform")
+			if v, err := version.Parse(w.Text); err == nil {
+				return errf("Parse(%q) accepted an epoch that does not fit in %d bits, as %+v", w.Text, strconv.IntSize, v)
+			}
+			var viaControl version.Version
+			if err := viaControl.UnmarshalControl(w.Text); err == nil {
+				return errf("UnmarshalControl(%q) accepted an epoch that does not fit in %d bits, as %+v", w.Text, strconv.IntSize, viaControl)
+			}
+			return nil
 		}
 		r.Case(w.Text, len(cl) > 0, cl...)
 		if len(cl) > 0 {
@@ -69,7 +83,7 @@ var specC03WellFormed = Register(&Spec[WellFormed]{
 })
 
 func TestC03_WellFormed(t *testing.T) {
-	specC03WellFormed.Run(t, func(t *rapid.T) WellFormed { return genWellFormed(t, "w") }, 60000, 300000)
+	specC03WellFormed.Run(t, func(t *rapid.T) WellFormed { return genWellFormedX(t, "w", true) }, 60000, 300000)
 }
 
 // ------------------------------------------------------------------ C03/reject
@@ -315,7 +329,7 @@ func checkVersionRoundTrip(s string, r *Recorder) error {
 
 var specC03RoundTrip = Register(&Spec[VersionText]{
 	Prop: "C03", Name: "roundtrip",
-	Rule: "candidate strings from three sources - Policy-grammar renderings, one or two byte edits of them over [0-9abAZ.+~:-] and blanks, and short soups over that alphabet; every string Parse accepts must satisfy Parse(String(v))==v, UnmarshalControl(MarshalControl(v))==v, UnmarshalText(MarshalText(&v))==v and json.Unmarshal(json.Marshal(&v))==v, always into fresh receivers. Non-trivial: accepted and has an epoch, explicit 0 epoch, revision, ':' or '-' inside upstream, trailing hyphen or empty upstream; distinct by text.",
+	Rule:  "candidate strings from three sources - Policy-grammar renderings, one or two byte edits of them over [0-9abAZ.+~:-] and blanks, and short soups over that alphabet; every string Parse accepts must satisfy Parse(String(v))==v, UnmarshalControl(MarshalControl(v))==v, UnmarshalText(MarshalText(&v))==v and json.Unmarshal(json.Marshal(&v))==v, always into fresh receivers. Non-trivial: accepted and has an epoch, explicit 0 epoch, revision, ':' or '-' inside upstream, trailing hyphen or empty upstream; distinct by text.",
 	Check: func(c VersionText, r *Recorder) error { return checkVersionRoundTrip(c.S, r) },
 })
 
